@@ -202,6 +202,8 @@ struct Eng {
   pending_read: Option<u32>,
   /// the zeroing write just announced lies outside the arena and is left out
   skip_write: bool,
+  /// the sequential continuation after the threads is running
+  draining: bool,
   /// values observed by the litmus steps: (thread, step, value)
   obs: Vec<(u8, u8, u64)>,
 }
@@ -576,7 +578,8 @@ impl Hook for H {
     ENG.with(|e| {
       let mut e = e.borrow_mut();
       e.pending_read = None;
-      if e.observer || e.aborting || e.solo.is_some() || e.stale_max == 0 || e.stale >= e.stale_max || std::thread::panicking() {
+      // (the drain is a sequential continuation after all threads were joined: everything happens-before it)
+      if e.observer || e.aborting || e.solo.is_some() || e.draining || e.stale_max == 0 || e.stale >= e.stale_max || std::thread::panicking() {
         return latest;
       }
       let cur = e.cur;
@@ -606,7 +609,7 @@ impl Hook for H {
   fn weak_cas_fails(&self, _ev: &Event) -> bool {
     ENG.with(|e| {
       let mut e = e.borrow_mut();
-      if e.observer || e.aborting || e.solo.is_some() || e.spur_max == 0 || e.spur >= e.spur_max || std::thread::panicking() {
+      if e.observer || e.aborting || e.solo.is_some() || e.draining || e.spur_max == 0 || e.spur >= e.spur_max || std::thread::panicking() {
         return false;
       }
       let c = decide_value(&mut e, 2, 2);
@@ -1488,29 +1491,16 @@ fn drain(a: &Arena, sh: &Shared) {
     e.st.push(St::Runnable);
     e.n = n + 1;
     e.solo = Some((n, 1500));
+    e.draining = true;
     e.events = 0;
     e.op_idx[n] = 99;
     n
   });
   let r = std::panic::catch_unwind(std::panic::AssertUnwindSafe(|| {
     let mut got: Vec<LiveH> = vec![];
-    for round in 0..12 {
-      let sz = if round % 2 == 0 { 8 } else { 24 };
-      ENG.with(|e| {
-        let mut e = e.borrow_mut();
-        e.solo = Some((n, 400));
-      });
-      match a.alloc_bytes(sz) {
-        Ok(mut b) => {
-          unsafe { b.detach() };
-          got.push(reg_alloc(n, sh, meta_of(&b), "bytes", 0xE0));
-        }
-        Err(_) => {}
-      }
-    }
-    // then every segment that is still listed is taken as a whole (fresh space is used up first; a request of
-    // exactly the data size of the head takes the head under both policies): a listed segment that reaches into
-    // a live range becomes a handle that overlaps it
+    // first every listed segment is taken as a whole (fresh space is used up before; a request of exactly the
+    // data size of the head takes the head under both policies): a listed segment that reaches into a live
+    // range becomes a handle that overlaps it.  Then a few more requests of mixed sizes.
     ENG.with(|e| e.borrow_mut().solo = Some((n, 400)));
     let rem = a.remaining() as u32;
     if rem > 0 {
@@ -1529,6 +1519,32 @@ fn drain(a: &Arena, sh: &Shared) {
       if let Ok(mut b) = a.alloc_bytes(sz) {
         unsafe { b.detach() };
         got.push(reg_alloc(n, sh, meta_of(&b), "bytes", 0xE2));
+      }
+    }
+    // half of what was obtained goes back (insertions into a list that is being rebuilt) ...
+    let mut keep = vec![];
+    for (i, l) in got.drain(..).enumerate() {
+      if i % 2 == 1 {
+        ENG.with(|e| e.borrow_mut().solo = Some((n, 800)));
+        release(n, sh, a, &l);
+      } else {
+        keep.push(l);
+      }
+    }
+    got = keep;
+    // ... and is taken again in pieces (splits)
+    for round in 0..12 {
+      let sz = if round % 2 == 0 { 8 } else { 24 };
+      ENG.with(|e| {
+        let mut e = e.borrow_mut();
+        e.solo = Some((n, 400));
+      });
+      match a.alloc_bytes(sz) {
+        Ok(mut b) => {
+          unsafe { b.detach() };
+          got.push(reg_alloc(n, sh, meta_of(&b), "bytes", 0xE0));
+        }
+        Err(_) => {}
       }
     }
     // walk the whole list twice more: an insertion (release of the first block obtained, which is
@@ -1692,6 +1708,9 @@ pub fn explore(run: &Run, h: &Harness, xc: &ExploreCfg, tag: &str) -> ExploreSta
   }
   if st.execs > 0 {
     run.sample(|| json!({"engine": "sched", "harness": h, "programs": progs_str(&h.progs), "schedules": st.execs, "first_schedule_trace": first_trace.clone().unwrap_or_default().into_iter().take(40).collect::<Vec<_>>()}));
+  }
+  if std::env::var("VERIF_DUMP_EXECS").is_ok() {
+    eprintln!("EXECS {} {:?} shape={} unify={} min={} leave={} odd={} bound={} stale={} : {}", progs_str(&h.progs), h.fl, h.shape, h.unify, h.min_seg, h.leave, h.odd, xc.bound, xc.stale, st.execs);
   }
   crate::crashguard::clear_case();
   for hsh in &local_states {
